@@ -303,38 +303,43 @@ def cas_shape(cache, rep):
     return n
 
 
-def cas_interference(cache, rep, capacity=4):
-    """behavioural: a complete concurrent operation (insert or fetch) is interposed between the load and the first or
-    the second compare-exchange of an operation, for every fill level 0..capacity of the shared pool.  The outcome must
-    be one a sequential pool allows: nothing handed out twice or never inserted, a fetch fails only if the pool was
-    empty at some moment, an insert only if it was full at some moment, and draining afterwards yields exactly the
-    blocks stored and not fetched.  Every access stays inside the record array."""
+def cas_interference(cache, rep, capacity=4, depth=1):
+    """behavioural: a sequence of up to `depth` complete concurrent operations (each an insert or a fetch) is interposed
+    between the load and the first or the second compare-exchange of an operation, for every fill level 0..capacity of
+    the shared pool.  Judged by the clauses of the property that hold under concurrency: nothing is handed out twice,
+    nothing is handed out that was not inserted, a failed insert keeps nothing, no more blocks are accepted than the
+    capacity, every record stays on exactly one list, draining afterwards yields exactly the blocks stored and not
+    fetched, and every access stays inside the record array.  (When an operation may *fail* under contention is
+    not constrained by the property and is not judged.)"""
+    import itertools
     from interp import OutOfBounds
     unit = cache.unit
     n = 0
     forced = 0
     nviol = 0
+    seqs = [q for k in range(1, depth + 1) for q in itertools.product(('insert', 'get'), repeat=k)]
     for fill in range(0, capacity + 1):
         for mine in ('insert', 'get'):
-            for other in ('insert', 'get'):
+            for others in seqs:
                 for at in (1, 2):
-                    scenario = '%s-vs-%s@%d/fill=%d' % ({'insert': 'push', 'get': 'pop'}[mine], {'insert': 'push', 'get': 'pop'}[other], at, fill)
+                    scenario = '%s-vs-%s@%d/fill=%d' % ({'insert': 'push', 'get': 'pop'}[mine], '+'.join({'insert': 'push', 'get': 'pop'}[o] for o in others), at, fill)
                     this, it, hooks = cache.new()
                     base = ['b%d' % (k + 1) for k in range(fill)]
                     for tag in base:
                         cache.op_insert(this, it, hooks, tag)
-                    state = {'done': False, 'got': None, 'ok': None}
+                    state = {'done': False, 'results': []}
 
-                    def run_other(it_, list_cell, other=other, this=this):
-                        sub = CacheHooks()
-                        it2 = Interp(unit, sub)
-                        if other == 'insert':
-                            state['ok'] = cache.op_insert(this, it2, sub, 'other')
-                        else:
-                            state['got'] = cache.op_get(this, it2, sub)
+                    def run_others(it_, list_cell, others=others, this=this, state=state):
+                        for k, o in enumerate(others):
+                            sub = CacheHooks()
+                            it2 = Interp(unit, sub)
+                            if o == 'insert':
+                                state['results'].append(('insert', 'o%d' % k, cache.op_insert(this, it2, sub, 'o%d' % k)))
+                            else:
+                                state['results'].append(('get', None, cache.op_get(this, it2, sub)))
                         state['done'] = True
                     hooks.interfere_at = at
-                    hooks.interfere = run_other
+                    hooks.interfere = run_others
                     hooks.cas_count = 0
                     hooks.cas_fail = 0
                     try:
@@ -354,36 +359,25 @@ def cas_interference(cache, rep, capacity=4):
                         n += 1
                         if hooks.cas_fail:
                             forced += 1
-                        # what a sequential pool allows
-                        stored = set(base)
-                        if other == 'insert' and state['ok']:
-                            stored.add('other')
-                        if other == 'get' and state['got'] is not None:
-                            if state['got'] not in base:
-                                raise Violation19('F.cas.shape', 'the interposed fetch returned %s, which was never inserted' % state['got'], None)
-                            stored.discard(state['got'])
-                        if mine == 'get':
-                            if got is None:
-                                may_be_empty = fill == 0 or (fill == 1 and other == 'get')
-                                if not may_be_empty:
-                                    raise Violation19('F.cas.shape', 'fetch failed although the pool was never empty (fill %d, concurrent %s)' % (fill, other), None)
-                            else:
-                                if other == 'get' and got == state['got']:
-                                    raise Violation19('F.cas.shape', 'two concurrent fetches both returned block %s' % got, None)
-                                if got not in stored:
-                                    raise Violation19('F.cas.shape', 'fetch returned %s, which is not a block stored in the pool' % got, None)
-                                if at == 2 and got == 'other':
-                                    raise Violation19('F.cas.shape', 'fetch returned a block inserted after it had already taken its record', None)
-                                stored.discard(got)
-                        else:
-                            if not ok:
-                                may_be_full = fill == capacity or (fill == capacity - 1 and other == 'insert' and state['ok'])
-                                if not may_be_full:
-                                    raise Violation19('F.cas.shape', 'insert failed although the pool was never full (fill %d, concurrent %s)' % (fill, other), None)
-                            else:
-                                stored.add('mine')
-                        if other == 'insert' and not state['ok'] and not (fill == capacity or (fill == capacity - 1 and mine == 'insert')):
-                            raise Violation19('F.cas.shape', 'the interposed insert failed although the pool was never full', None)
+                        inserted = set(base)
+                        fetched = []
+                        for kind, tag, res in state['results']:
+                            if kind == 'insert' and res:
+                                inserted.add(tag)
+                            if kind == 'get' and res is not None:
+                                fetched.append(res)
+                        if mine == 'insert' and ok:
+                            inserted.add('mine')
+                        if mine == 'get' and got is not None:
+                            fetched.append(got)
+                            if at == 2 and got not in base:
+                                raise Violation19('F.cas.shape', 'fetch returned %s, inserted after the fetch had already taken its record' % got, None)
+                        for g in fetched:
+                            if fetched.count(g) > 1:
+                                raise Violation19('F.cas.shape', 'block %s was handed out by two fetches' % g, None)
+                            if g not in inserted:
+                                raise Violation19('F.cas.shape', 'fetch returned %s, which was never (successfully) inserted' % g, None)
+                        stored = inserted - set(fetched)
                         if len(stored) > capacity:
                             raise Violation19('F.cas.shape', 'more blocks accepted (%d) than the capacity %d' % (len(stored), capacity), None)
                         cache.check_conservation(this)
@@ -406,12 +400,14 @@ def cas_interference(cache, rep, capacity=4):
                     except Violation19 as v:
                         n += 0 if state['done'] else 1
                         nviol += 1
-                        rep.fail('F.cas.retry', scenario, v.where or unit.loc(cache.f['pop']), 'a failed compare-exchange is retried on the freshly observed head', v.what, cache.cls)
+                        if nviol <= 12:
+                            rep.fail('F.cas.retry', scenario, v.where or unit.loc(cache.f['pop']), 'a failed compare-exchange is retried on the freshly observed head', v.what, cache.cls)
     if not nviol:
         rep.floor('F.cas.retry', n, 24)
         if forced < 12:
             raise AnalysisBroken('only %d interference scenarios forced a failed exchange' % forced)
-    rep.sample('F.cas.retry', '%d interleavings (fill 0..%d x insert/fetch x insert/fetch x first/second exchange), %d with a failed and retried exchange' % (n, capacity, forced))
+    rep.sample('F.cas.retry', '%d interleavings (fill 0..%d x insert/fetch x sequences of up to %d interposed operations x first/second exchange), %d with a failed and retried exchange'
+               % (n, capacity, depth, forced))
     return n
 
 
@@ -419,7 +415,7 @@ def run(db, rep, tier):
     rep.trusted += ['clang 14 AST of detail/Cache.h in both configurations (driver/cache_shared.cpp compiles the atomic one)',
                     'sqdump extractor + abstract interpreter; std::atomic load/store/compare_exchange summarised sequentially, with one forced interposition',
                     'operation sequences enumerated exhaustively up to the stated length']
-    rep.declined += ['linearizability under all interleavings of 2..3 threads (needs a model checker; only single interpositions at the first compare-exchange are explored)']
+    rep.declined += ['linearizability under all interleavings of 2..3 threads (needs a model checker; explored: one preemption of one operation before its first or second exchange, with up to 1 (quick) / 3 (thorough) complete operations of other threads interposed, at every fill level)']
     shared = Cache(db, 'cache_shared', 'squids::detail::cache<sqv_driver::entry, 4>', 'sqv_driver::entry')
     tls = Cache(db, 'SUNalg', 'squids::detail::cache<squids::SU_vector::mem_cache_entry, 32>', 'squids::SU_vector::mem_cache_entry')
     for c in (shared, tls):
@@ -440,4 +436,4 @@ def run(db, rep, tier):
     n = cas_shape(shared, rep)
     rep.floor('F.cas.shape', n, 2)
     if ok1:
-        cas_interference(shared, rep)
+        cas_interference(shared, rep, depth=3 if tier == 'thorough' else 1)
